@@ -96,32 +96,49 @@ def build(chk):
             conj.append(r_cmp('le', v, hi.r))
         return b_and(*conj)
 
+    def bj(b, model):
+        return [fjs(valconv.fv_to_float(b[0], model)), fjs(valconv.fv_to_float(b[1], model))]
+
+    def inside(bound, v):
+        lo, hi = fsj(bound[0]), fsj(bound[1])
+        return lo <= hi and lo != math.inf and hi != -math.inf and lo - 1e-9 * (1 + abs(v)) <= v <= hi + 1e-9 * (1 + abs(v))
+
     def h_mul(P):
         a, ab = sym_bound(P, 'a')
         b, bb = sym_bound(P, 'b')
         p, q = point_in(P, 'p', ab), point_in(P, 'q', bb)
+
+        def witness(model):
+            case = {'op': 'bound_ops', 'a': bj(ab, model), 'b': bj(bb, model), 'exp': 1}
+            pv, qv = valconv.fv_to_float(p, model), valconv.fv_to_float(q, model)
+            return case, (lambda res: 'ok' not in res or not inside(res['ok']['mul'], pv * qv)), f'{case} point {pv} * {qv}'
         try:
             res = P.it.run_body(mul, [a, b])
         except RustPanic:
-            P.fail('no-panic')
+            P.fail('no-panic', witness)
             return
         P.cover('unbounded-factor', ab[0].tag != 'fin' or bb[1].tag != 'fin')
-        P.require('product-enclosed', encloses(res, r_mul(p.r, q.r)))
+        P.require('product-enclosed', encloses(res, r_mul(p.r, q.r)), witness)
     chk.harness('Bound::mul', h_mul, regions=['unbounded-factor'])
 
     def mk_pow(n):
         def h(P):
             a, ab = sym_bound(P, 'a')
             p = point_in(P, 'p', ab)
+
+            def witness(model):
+                case = {'op': 'bound_ops', 'a': bj(ab, model), 'b': [0.0, 0.0], 'exp': n}
+                pv = valconv.fv_to_float(p, model)
+                return case, (lambda res: 'ok' not in res or not inside(res['ok']['pow'], pv ** n)), f'{case} point {pv}^{n}'
             try:
                 res = P.it.run_body(powb, [ref_to(a), n])
             except RustPanic:
-                P.fail('no-panic')
+                P.fail('no-panic', witness)
                 return
             v = Fraction(1)
             for _ in range(n):
                 v = r_mul(v, p.r)
-            P.require('power-enclosed', encloses(res, v))
+            P.require('power-enclosed', encloses(res, v), witness)
         return h
     for n in range(0, 7 if chk.tier == 'thorough' else 5):
         chk.harness(f'Bound::pow/{n}', mk_pow(n))
@@ -175,13 +192,20 @@ def build(chk):
                 boxes[i] = bb
             xs = {i: point_in(P, f'x{i}', boxes[i]) for i in boxes}
             bmap = RMap('hash', False, bounds)
+
+            def witness(model):
+                fd = chk.conv.to_dict(fval, 'ommx.v1.Function', model)
+                case = {'op': 'evaluate_bound', 'f': chk.hexdict(fd, 'ommx.v1.Function'), 'bounds': {str(i): bj(boxes[i], model) for i in boxes if i != 2}}
+                pt = {i: Fraction(valconv.fv_to_float(xs[i], model)) for i in xs}
+                val = float(fn_eval(fd, pt))
+                return case, (lambda res: 'ok' not in res or not inside(res['ok']['bound'], val)), f'evaluate_bound({fd}) on {case["bounds"]}: value {val} at {pt}'
             try:
                 res = P.it.run_body(evb, [ref_to(fval), ref_to(bmap)])
             except RustPanic:
-                P.fail('no-panic')
+                P.fail('no-panic', witness)
                 return
             v = sf.denote(lambda i: xs[i].r)
-            P.require('function-value-enclosed', encloses(res, v))
+            P.require('function-value-enclosed', encloses(res, v), witness)
         return h
     shapes = [(('constant',), False, [()]), (('linear', 1), False, [(0,), (2,)]), (('linear', 2), False, [(0, 1), (0, 0), (0, 2)]),
               (('quadratic', 1, None), False, [(0, 1), (0, 0), (1, 2)]), (('quadratic', 1, 1), False, [(0, 1, 0), (0, 0, 1)]), (('polynomial', (2,)), False, [(0, 1), (1, 1)]),
